@@ -239,6 +239,13 @@ func (eng *Engine) buildIntercepts() {
 	ic[envPkg+".ChanOffer"] = func(ex *Exec, caller *frame, fn *ssa.Function, args []Value) Value {
 		c := args[0].(IfaceV).v.(*ChanV)
 		c.offers = append(c.offers, args[1].(IfaceV).v)
+		c.offerAfter = append(c.offerAfter, nil)
+		return nil
+	}
+	ic[envPkg+".ChanOfferAfter"] = func(ex *Exec, caller *frame, fn *ssa.Function, args []Value) Value {
+		c := args[0].(IfaceV).v.(*ChanV)
+		c.offers = append(c.offers, args[1].(IfaceV).v)
+		c.offerAfter = append(c.offerAfter, args[2].(IfaceV).v.(*ChanV))
 		return nil
 	}
 	ic[envPkg+".ChanTaker"] = func(ex *Exec, caller *frame, fn *ssa.Function, args []Value) Value {
@@ -267,7 +274,6 @@ func (eng *Engine) buildIntercepts() {
 
 	// ---------------- formatting / logging / errors ----------------
 	for _, n := range []string{"fmt.Sprintf", "fmt.Sprint", "fmt.Sprintln", "strings.Join", "encoding/hex.EncodeToString",
-		repoPkg + "/services/logger.MemberIdToStr", repoPkg + "/services/termincommittee.Str",
 		repoPkg + "/services/termincommittee.ToCommitteeMembersStr",
 		repoPkg + "/services/logger.ConvertMessagesToMemberMessagesLogs",
 		repoPkg + "/services/leanhelixterm.printShortBlockProofBytes",
@@ -484,6 +490,21 @@ func (eng *Engine) buildIntercepts() {
 		}
 		return mkStr(ex.tt, out)
 	}
+	// logger.MemberIdToStr / termincommittee.Str: "" for nil, else the hex of the id cut to 6 characters (exact)
+	shortHex := func(ex *Exec, caller *frame, fn *ssa.Function, args []Value) Value {
+		sv := args[0].(SliceV)
+		if sv.nil_ {
+			return StrV{}
+		}
+		full := hexStr(ex, caller, fn, args).(StrV)
+		bs := full.Bytes(ex.tt)
+		if len(bs) > 6 {
+			bs = bs[:6]
+		}
+		return mkStr(ex.tt, bs)
+	}
+	ic[repoPkg+"/services/logger.MemberIdToStr"] = shortHex
+	ic[repoPkg+"/services/termincommittee.Str"] = shortHex
 	prim := repoPkg + "/spec/types/go/primitives"
 	for _, n := range []string{"MemberId", "Signature", "RandomSeedSignature", "BlockHash", "Uint256"} {
 		ic["("+prim+"."+n+").String"] = hexStr
